@@ -2,6 +2,7 @@
    Property theorems only. *)
 From Coq Require Import ZArith List Bool Arith Lia.
 From Coba Require Import C13.Model C13.Proofs.
+From Coba Require C13.ModelSparse C13.ProofsSparse.
 Import ListNotations.
 
 (* For EVERY pipeline of HeadRows / EncodeRows / DropRows (by position and by name) / LabelRows.feats
@@ -48,3 +49,36 @@ Proof.
   cbn. repeat split; try lia.
   repeat constructor; cbn; intuition discriminate.
 Qed.
+
+Module Sparse.
+Import ModelSparse ProofsSparse.
+Local Open Scope Z_scope.
+
+(* Sparse rows.  Every stack of EncodeSparse / DropSparse / HeadSparse / LabelSparse wrappers over a plain dict with distinct keys reads like ONE dictionary:
+   keys() has no repeats, __getitem__ succeeds exactly on keys(), items() is exactly the graph of __getitem__ with each key once, len() counts keys(). *)
+Theorem sparse_views_are_dictionaries : forall stages d, Forall wf_sstage stages -> NoDup (map fst d) -> dictlike (spipeline stages d).
+Proof. exact (fun stages d Hs Hd => ProofsSparse.sparse_views_are_dictionaries stages Hs (sbase d) (base_ok d Hd)). Qed.
+Print Assumptions sparse_views_are_dictionaries.
+
+(* the not-sparse set EncodeRows computes from distinct encoder keys is a well-formed stage *)
+Theorem encode_rows_stage_wf : forall encs, NoDup (map fst encs) -> wf_sstage (SEncode encs (nsp_of encs)).
+Proof. exact nsp_of_NoDup. Qed.
+Print Assumptions encode_rows_stage_wf.
+
+(* stage by stage the dictionary a view reads as is the eager dict operation applied to the dictionary of the wrapped view *)
+Theorem sparse_stage_semantics : forall r, dictlike r ->
+  (forall enc nsp k, sget (sencode enc nsp r) k = match sget r k with Some v => Some (app_enc (enc k) v) | None => if zmem k nsp then Some (app_enc (enc k) 0) else None end) /\
+  (forall ds k, sget (sdrop ds r) k = if zmem k ds then None else sget r k) /\
+  (forall sh k, sget (shead sh r) (k + sh) = sget r k) /\
+  (forall lab, dictlike (sfeats lab r) /\ ~ In lab (skeys (sfeats lab r)) /\ (forall k, k <> lab -> sget (sfeats lab r) k = sget r k) /\
+               slabel lab r = Some (match sget r lab with Some x => x | None => 0 end)).
+Proof.
+  exact (fun r Hr => conj (fun _ _ _ => eq_refl) (conj (fun _ _ => eq_refl) (conj (fun sh k => f_equal (sget r) (Z.add_simpl_r k sh)) (fun lab => feats_label lab r Hr)))).
+Qed.
+Print Assumptions sparse_stage_semantics.
+
+Example sparse_example :
+  let st := [SEncode [(1, EAdd 2); (3, EConst 7)] (nsp_of [(1, EAdd 2); (3, EConst 7)]); SDrop [0]; SHead 10]%Z in
+  Forall wf_sstage st /\ sitems (spipeline st [(0, 5); (1, 6)]%Z) = [(11, 8); (13, 7)]%Z /\ slen (spipeline st [(0, 5); (1, 6)]%Z) = 2%nat.
+Proof. split; [|split; vm_compute; reflexivity]. repeat constructor; cbn; intuition discriminate. Qed.
+End Sparse.
